@@ -3,7 +3,7 @@
 usage: tools/run_seed.py <seed-dir> [Cxx ...]   (seed-dir contains patch.diff)
 Prints which checks raise a VIOLATION. Never commits anything in /repo."""
 import subprocess, sys, json, os, time
-seed = sys.argv[1]
+seed = os.path.abspath(sys.argv[1])
 props = sys.argv[2:] or ["C%02d" % i for i in range(1, 21)]
 tier = os.environ.get("TIER", "quick")
 patch = os.path.join(seed, "patch.diff")
